@@ -37,9 +37,9 @@ func (c08) Meta() Meta {
 
 func c08Params(tier string) (nGenQ, nGenT, replays int) {
 	if tier == "thorough" {
-		return 40, 400, 30
+		return 100, 2000, 30
 	}
-	return 40, 400, 8
+	return 100, 2000, 8
 }
 
 func (p c08) NumUnits(tier string, seed int64) int {
